@@ -360,13 +360,16 @@ pub(crate) trait CKKSSubDefault<BE: Backend> {
             cst_znx.effective_k(),
         )?;
         let n = dst.n().as_usize();
+        // A constant encoded more precisely than the ciphertext stores (prec.log_delta beyond the
+        // stored bits) has more limbs than dst: the digits below the last stored limb are dropped.
+        let size = dst.size();
         if let Some(coeff) = cst_znx.re() {
-            for (limb, digit) in coeff.iter().enumerate() {
+            for (limb, digit) in coeff.iter().enumerate().take(size) {
                 dst.data_mut().at_mut(0, limb)[0] -= *digit;
             }
         }
         if let Some(coeff) = cst_znx.im() {
-            for (limb, digit) in coeff.iter().enumerate() {
+            for (limb, digit) in coeff.iter().enumerate().take(size) {
                 dst.data_mut().at_mut(0, limb)[n / 2] -= *digit;
             }
         }
